@@ -29,7 +29,7 @@ Removes(s) ==
     [] s = "shapes_to_paths" -> {"basicshape"}
     [] s = "expand_shorthand" -> {"shorthand"}
     [] s = "resolve_use" -> {"use"}
-    [] s = "simplify" -> {"structure", "needlessgroup"}
+    [] s = "simplify" -> {"structure"}
     [] s = "drop_unsupported" -> {"unsupported"}
     [] s = "evenodd_to_nonzero_winding" -> {"evenodd"}
     [] s = "normalize_opacity" -> {"splitopacity"}
@@ -52,7 +52,8 @@ MayCreate(s) ==
     [] s = "resolve_use" ->                                             \* the copy takes the use's attributes
          {"structure", "needlessgroup", "evenodd", "splitopacity", "invisible"}
     [] s = "simplify" -> {"evenodd", "splitopacity", "unrounded", "emptysubpath", "invisible",
-                          "orphangradient"}     \* orphans are purged BEFORE unused shapes leave defs
+                          "orphangradient",     \* orphans are purged BEFORE unused shapes leave defs
+                          "needlessgroup"}      \* a dissolved outer group pushes opacity 0 onto a kept inner one
     [] s = "evenodd_to_nonzero_winding" -> {"unrounded", "emptysubpath", "invisible"}
     [] s = "normalize_opacity" -> {"unrounded"}
     [] s = "round_floats" -> {"emptysubpath", "invisible"}              \* rounding collapses slivers
